@@ -111,12 +111,20 @@ def run_case(case):
             row['id'] = i
         res.append({'name': 'res%d' % r, 'fields': gen.schema_fields(fields), 'rows': rows})
     opts = {'format': fmt, 'pretty_descriptor': pretty}
+    rng_v = boot.rng(case['seed'], 'C09', 'validator', case['idx'])
+    dropped_rows = 0
+    bad_res = None
+    want_drop = fmt in ('csv', 'json') and rng_v.random() < 0.15 and any(r['rows'] for r in res)
+    early_stop = fmt in ('csv', 'json') and rng_v.random() < 0.15
+    if early_stop:
+        cov['config']['later_step_stops_reading_early'] = 1
     if COUNTER_SETS[cset]:
         opts['counters'] = dict(COUNTER_SETS[cset])
     if filehash:
         opts['add_filehash_to_path'] = True
     cfg = {'format': fmt, 'kind': kind, 'counters': cset, 'add_filehash_to_path': filehash, 'pretty': pretty,
-           'rows': [len(r['rows']) for r in res]}
+           'rows': [len(r['rows']) for r in res], 'validator_drops_rows': dropped_rows,
+           'later_step_stops_reading_early': early_stop}
     cov['config']['%s/%s/%s%s' % (fmt, kind, cset, '/filehash' if filehash else '')] = 1
 
     # history of the measured dump: fresh / written over an earlier dump of other data / a re-dump of a loaded dump
@@ -124,6 +132,15 @@ def run_case(case):
     if fmt in ('csv', 'json'):
         history = rng.choice(['fresh', 'fresh', 'same_target', 'redump', 'redump_twice'])
     cfg['history'] = history
+    if want_drop and history == 'fresh':
+        # the dumper's own validator drops a row that does not conform: the numbers describe what was WRITTEN
+        opts['validator_options'] = {'on_error': d.schema_validator.drop}
+        r_ = rng_v.choice([r for r in res if r['rows']])
+        r_['rows'][rng_v.randrange(len(r_['rows']))]['id'] = 'not-a-number'
+        bad_res = r_['name']
+        dropped_rows = 1
+        cfg['validator_drops_rows'] = 1
+        cov['config']['validator_drops_a_row'] = 1
     cov['config']['history/%s/%s%s' % (history, kind, '/filehash' if filehash else '')] = 1
 
     # force_format=False: a resource whose extension the dumper does not write is left out of the dump - and of its totals
@@ -151,6 +168,12 @@ def run_case(case):
         steps.append(d.update_package(name='pkg'))
         steps.append(d.dump_to_path(out, **copy.deepcopy(opts)) if kind == 'path'
                      else d.dump_to_zip(out, **copy.deepcopy(opts)))
+        if early_stop:
+            import itertools
+
+            def first_two(rows):
+                return itertools.islice(rows, 2)
+            steps.append(first_two)
         try:
             with boot.quiet():
                 dp, stats = d.Flow(*steps).process()
@@ -244,7 +267,8 @@ def run_case(case):
                     add('stale_counter', 'resource %s: written descriptor carries %s=%r (not written by this dump, which '
                         'records it as %r), the file has %r' % (rd['name'], prop, rd[prop], cnames[key], actual),
                         'stale_default_counter/%s' % prop, field=prop)
-            if cnames['resource-rowcount'] is not None and len(r['rows']) != iolab.count_data_rows(rd, data):
+            if cnames['resource-rowcount'] is not None and \
+                    len(r['rows']) - (1 if r['name'] == bad_res else 0) != iolab.count_data_rows(rd, data):
                 add('rows_written', 'resource %s: %d rows entered, file holds %d' %
                     (rd['name'], len(r['rows']), iolab.count_data_rows(rd, data)), 'rows_written/' + fmt)
             if filehash and cnames['resource-hash'] and iolab.md5(data) not in path:
